@@ -8,19 +8,36 @@
   Import-free apart from the receive-path model's data types and pure classifiers.
 -/
 import Upnp.Model.C02Recv
+import Upnp.Spec.C03
 namespace Upnp.C02
 open Upnp Upnp.C01
 
 def firesSearch (cfg : Cfg) (h : Hdrs) : Bool :=
   match searchClassify cfg.targetHost h with | .ok b => b | .error _ => false
 
+/-- the interface between the decoder model and the tracker model, as a test on one header map:
+    whenever the USN yields a udn, `_udn` is that udn (`C03.Parse.RawOp.decoded`) -/
+def udnGuaranteeB (h : Hdrs) : Bool :=
+  let hs : C03.Hdrs String := C16.SMap.writeAll C03.Parse.lower [] (pairsOf h)
+  match (C03.Parse.truthy (PyDict.get? hs "usn")).bind C03.Parse.udnFromUsn with
+  | some u => C03.Parse.truthy (PyDict.get? hs "_udn") == some u
+  | none => true
+
 /-- what a well-formed message makes the endpoint do -/
 inductive Dispatch
   | notify                 -- the user callback of a plain listener fires
-  | see (udn : Bytes)      -- the tracker records / refreshes this device
-  | unsee (udn : Bytes)    -- the tracker forgets this device
+  | see (udn : String)     -- the tracker records / refreshes this device
+  | unsee (udn : String)   -- the tracker forgets this device
   | respond                -- the responder answers (now or deferred)
 deriving DecidableEq, Repr
+
+/-- the combined listener: the property text's reading of C03 — a valid sighting (uuid USN, a type, an
+    acceptable location; `Msg.sighting?`) is recorded, a byebye naming a device (`Msg.byebye?`) is
+    obeyed, everything else is to be dropped -/
+def classifyEv (e : C03.Ev String) : Option Dispatch :=
+  match e with
+  | .msg m => if m.kind = .byebye then m.byebye?.map .unsee else m.sighting?.map fun p => .see p.1
+  | _ => none
 
 /-- Is this datagram, from this sender, a well-formed message for the endpoint, and what does it ask for?
     gate ∧ decodable ∧ the endpoint's own validity test (a uuid USN for the tracker, a matching target
@@ -31,12 +48,8 @@ def classify (cfg : Cfg) (ep : Endpoint) (data : Bytes) (loc : Option Addr) (src
     (match ep with
      | .adv => if (advClassify h).isSome then some .notify else none
      | .search => if firesSearch cfg h then some .notify else none
-     | .listenerAdv =>
-       (match advClassify h with
-        | some .byebye => if validByebye h then (usnUdn h).map .unsee else none
-        | some _ => if validAdv h then (usnUdn h).map .see else none
-        | none => none)
-     | .listenerSearch => if firesSearch cfg h && validSearch h then (usnUdn h).map .see else none
+     | .listenerAdv => classifyEv (C03.Parse.parseEv cfg.trk true (pairsOf h))
+     | .listenerSearch => if firesSearch cfg h then classifyEv (C03.Parse.parseEv cfg.trk false (pairsOf h)) else none
      | .responder => if isSearch rl h && responseCount cfg h != 0 then some .respond else none)
   | _ => none
 
@@ -49,8 +62,8 @@ structure Obs where
   callbacks : Nat                 -- user callbacks fired (sync + async)
   sends : Nat                     -- datagrams handed to a socket / transport
   timers : Nat                    -- timers scheduled
-  devsBefore : List (List Nat)    -- sorted keys of the known-device map before …
-  devsAfter : List (List Nat)     -- … and after
+  devsBefore : List String        -- sorted keys of the known-device map before …
+  devsAfter : List String         -- … and after
 deriving DecidableEq, Repr
 
 def Obs.inert (o : Obs) : Bool :=
@@ -64,12 +77,26 @@ def Obs.dispatched (o : Obs) : Dispatch → Bool
   | .respond => o.sends + o.timers ≥ 1
 
 /-- the property, for one datagram: nothing raised; a well-formed message is dispatched, anything
-    else is dropped, and a dropped datagram is inert -/
-def ok (c : Option Dispatch) (o : Obs) : Bool :=
-  o.raised.isNone && (match c with | none => o.inert | some d => o.dispatched d)
+    else is dropped, and a dropped datagram is inert.  `may`: the message is accepted by today's
+    code but lacks a header UDA requires (see `mayDrop`) — the text does not say it is well-formed,
+    so either outcome is accepted: dispatched, or dropped and inert. -/
+def ok (c : Option Dispatch) (o : Obs) (may : Bool := false) : Bool :=
+  o.raised.isNone && (match c with | none => o.inert | some d => o.dispatched d || (may && o.inert))
+
+/-- the plain listeners notify on very little (advertisement: an NTS; search: no NTS).  A message
+    without the identifying headers UDA makes REQUIRED (advertisement: NT and USN; search response:
+    ST and USN) may as well be dropped by a stricter library. -/
+def mayDrop (cfg : Cfg) (ep : Endpoint) (data : Bytes) (loc : Option Addr) (src : Addr) (now : Int) : Bool :=
+  match protocolRecv Fixes.all cfg.prefixes data loc src now with
+  | .ok (some (_, h)) =>
+    (match ep with
+     | .adv => !(truthy (getL h "nt") && truthy (getL h "usn"))
+     | .search => !(truthy (getL h "st") && truthy (getL h "usn"))
+     | _ => false)
+  | _ => false
 
 /-- the model's outcome rendered as an observation (used for the correspondence and in the theorems) -/
-def obsOf (before : Tracker) (r : Except Exn (Tracker × Eff)) (sortKeys : List Bytes → List Bytes) : Option Obs :=
+def obsOf (before : Tracker) (r : Except Exn (Tracker × Eff)) (sortKeys : List String → List String) : Option Obs :=
   match r with
   | .error _ => none
   | .ok (t, e) => some { raised := none, callbacks := e.cbMin, sends := e.sends, timers := e.timers,
